@@ -137,7 +137,7 @@ func c20Valid(e *core.Env, r *core.Rand, idx int64, d *gen.Out, text string, exa
 	w["flags"] = fmt.Sprintf("pretty=%v %s files=%d", pretty, q.String(), len(in))
 	clock := obs.ClockAt(today, 13*60+5, 0)
 	var out string
-	if idx%5 == 0 {
+	if idx%5 == 0 && q.cliOK() {
 		args := []string{"json"}
 		if pretty {
 			args = append(args, "--pretty")
